@@ -82,6 +82,26 @@ func stepFields(parent string, ss ast.SelectionSet, out map[clientField]bool) {
 	}
 }
 
+// concreteFields: selecting a field on an interface selects it on every possible type — both the
+// client's selections and a sub-request's are compared at the level of object types, so that
+// `feed { rating }` (Media.rating) and `feed { ... on Book { rating } ... on Film { rating } }` agree.
+func concreteFields(schema *ast.Schema, in map[clientField]bool) map[clientField]bool {
+	out := map[clientField]bool{}
+	for f := range in {
+		d := schema.Types[f.Parent]
+		if d != nil && (d.Kind == ast.Interface || d.Kind == ast.Union) {
+			for _, pt := range schema.GetPossibleTypes(d) {
+				if pt.Fields.ForName(f.Name) != nil {
+					out[clientField{pt.Name, f.Name}] = true
+				}
+			}
+			continue
+		}
+		out[f] = true
+	}
+	return out
+}
+
 func walkSteps(steps []*planner.QueryPlanStep, f func(*planner.QueryPlanStep)) {
 	for _, s := range steps {
 		f(s)
@@ -118,6 +138,7 @@ func c02Check(ctx *Ctx, idx int, cs coreCase) {
 	client := map[clientField]bool{}
 	root := map[ast.Operation]string{ast.Query: "Query", ast.Mutation: "Mutation", ast.Subscription: "Subscription"}[op.Operation]
 	collectClientFields(cf.Merged.Schema, root, op.SelectionSet, client)
+	client = concreteFields(cf.Merged.Schema, client)
 	_, opForPlanner, _ := loadOp(cf.Merged.Schema, cs.Query, cs.OpName)
 	rp, perr := realPlan(cf, opForPlanner, cs)
 	if perr != nil {
@@ -174,6 +195,7 @@ func c02Check(ctx *Ctx, idx int, cs coreCase) {
 		sroot := map[ast.Operation]string{ast.Query: "Query", ast.Mutation: "Mutation", ast.Subscription: "Subscription"}[sop.Operation]
 		sf := map[clientField]bool{}
 		stepFields(sroot, sop.SelectionSet, sf)
+		sf = concreteFields(cf.Merged.Schema, sf)
 		for f := range sf {
 			covered[f] = true
 			if !client[f] && f.Name != "id" && !(f.Parent == "Query" && f.Name == "node") {
@@ -325,6 +347,10 @@ func runC02(ctx *Ctx) error {
 	}
 	for i, cs := range loadCorpus("C02") {
 		c02Check(ctx, i, cs)
+	}
+	for i, cs := range spreadInterfaceCases() {
+		ctx.Rep.Count("stream:interface-spread (pinned)")
+		c02Check(ctx, 30+i, cs)
 	}
 	// the other place where operations are selected: the `start` arm of the websocket handler
 	for i, cs := range c02SubCases() {
